@@ -64,6 +64,15 @@ Theorem C18_session_only_members :
 Proof. intros E. exact (@session_inits E). Qed.
 Print Assumptions C18_session_only_members.
 
+(* whatever the number of occurrences of i: every Init call on the combination is an Init
+   call on i once per occurrence *)
+Theorem C18_session_init_count :
+  forall (E : Type) t (ops : list (sop E)) i,
+    length (filter is_init (sees i (session (build t) ops))) =
+    count_occ Nat.eq_dec (leaves t) i * length (filter is_init ops).
+Proof. intros E. exact (@session_init_count E). Qed.
+Print Assumptions C18_session_init_count.
+
 Theorem C18_task_invoked :
   forall f sc e k ef, unique_providers f -> reach f sc e -> In (FT k, ef) (xlog e) ->
     je_calls ef <> [] -> je_events ef = [expected_outcome f sc k; EvDone].
